@@ -3,9 +3,18 @@
 package scramblesuit
 
 import (
+	"bytes"
+	"crypto/aes"
+	"crypto/cipher"
 	"crypto/hmac"
 	"crypto/sha256"
 	"errors"
+	"io"
+
+	"golang.org/x/crypto/hkdf"
+
+	"gitlab.com/yawning/obfs4.git/common/drbg"
+	"gitlab.com/yawning/obfs4.git/common/probdist"
 
 	"gitlab.com/yawning/obfs4.git/common/csrand"
 	"gitlab.com/yawning/obfs4.git/common/uniformdh"
@@ -164,4 +173,76 @@ func VerifC15TicketCrash() {
 	cf, err := (&Transport{}).ClientFactory(vDir)
 	verifrt.Assert(err == nil && cf != nil, "persisted client state never blocks start-up")
 	verifrt.Reach("end")
+}
+
+// refServerPacket builds one ScrambleSuit packet as a conforming server sends it:
+// HMAC-SHA256-128(E(hdr | payload | padding)) | E(hdr | payload | padding), hdr = BE16(total) | BE16(payload) | flags.
+func refServerPacket(s cipher.Stream, macKey []byte, flags byte, payload []byte, padLen int) []byte {
+	total := len(payload) + padLen
+	pkt := []byte{byte(total >> 8), byte(total), byte(len(payload) >> 8), byte(len(payload)), flags}
+	pkt = append(pkt, payload...)
+	pkt = append(pkt, make([]byte, padLen)...)
+	s.XORKeyStream(pkt, pkt)
+	m := hmac.New(sha256.New, macKey)
+	m.Write(pkt)
+	return append(m.Sum(nil)[:macLength], pkt...)
+}
+
+// VerifC15Packets: lemma X3 – an honest packet stream from the server, under every
+// segmentation class (cuts inside MAC, header, body and exactly at packet ends), yields exactly
+// the payload bytes in order, and nothing stays undelivered when Read would block.
+func VerifC15Packets() {
+	seed := verifrt.Bytes("seed", 32)
+	cc := verifrt.NewConn("c", nil)
+	c := &ssConn{Conn: cc, lenDist: probdist.New(vDrbgSeed(), minLenDistLength, maxLenDistLength, true),
+		receiveBuffer: bytes.NewBuffer(nil), receiveDecodedBuffer: bytes.NewBuffer(nil)}
+	verifrt.Assert(c.initCrypto(seed) == nil, "crypto initialised")
+	// the server's sending state = the client's receiving state (X2): HKDF-expand(seed)[0:144],
+	// rx key 40:72, IV prefix 72:80 | 00..01, MAC key 112:144
+	okm := make([]byte, kdfSecretLength)
+	_, _ = io.ReadFull(hkdf.Expand(sha256.New, seed, nil), okm)
+	blk, _ := aes.NewCipher(okm[40:72])
+	iv := append(append([]byte{}, okm[72:80]...), 0, 0, 0, 0, 0, 0, 0, 1)
+	stream := cipher.NewCTR(blk, iv)
+	var wire, want []byte
+	var ends []int
+	np := verifrt.Pick("packets", 1, 2)
+	for k := 0; k < np; k++ {
+		pl := []int{3, 0, 1}[verifrt.Pick("payload_len_class", 0, 2)]
+		pad := []int{0, 2}[verifrt.Pick("pad_len_class", 0, 1)]
+		payload := verifrt.Bytes("payload", pl)
+		wire = append(wire, refServerPacket(stream, okm[112:144], pktPayload, payload, pad)...)
+		want = append(want, payload...)
+		ends = append(ends, len(wire))
+	}
+	cc.In = wire
+	cc.MaxChunks = 1
+	cand := []int{0, 1, macLength - 1, macLength, macLength + 1, pktOverhead - 1, pktOverhead, pktOverhead + 1}
+	for _, e := range ends {
+		cand = append(cand, e-1, e, e+1, e+macLength, e+pktOverhead)
+	}
+	if cut := cand[verifrt.Pick("cut", 0, len(cand)-1)]; cut > 0 && cut < len(wire) {
+		cc.Cuts = []int{cut}
+	}
+	var got []byte
+	verifrt.OnBlocked(func() {
+		verifrt.Reach("drained")
+		verifrt.Assert(cc.Unread() == 0 && verifrt.Equal(got, want), "Read blocks only when every payload byte that arrived has been delivered")
+	})
+	verifrt.Spawn(func() {
+		buf := make([]byte, 16)
+		for i := 0; i < 6; i++ {
+			n, err := c.Read(buf)
+			verifrt.Assert(err == nil, "no error on an intact stream")
+			got = append(got, buf[:n]...)
+			verifrt.Assert(len(got) <= len(want) && verifrt.Equal(got, want[:len(got)]), "delivered bytes are a prefix of the payload bytes, in order")
+		}
+	})
+	verifrt.Reach("end")
+}
+
+func vDrbgSeed() *drbg.Seed {
+	s, err := drbg.SeedFromBytes(verifrt.Bytes("lenseed", drbg.SeedLength))
+	verifrt.Assume(err == nil)
+	return s
 }
